@@ -73,6 +73,15 @@ MUT = {
  "r2-unsubscribe-by-object-identity": ("C03", "spine/subscription_manager.go",
     "		if item.ClientFeature.Device().Ski() != remoteDevice.Ski() ||\n			!reflect.DeepEqual(itemAddress.Device, clientAddress.Device) ||\n			!reflect.DeepEqual(itemAddress.Entity, clientAddress.Entity) ||\n			!reflect.DeepEqual(itemAddress.Feature, clientAddress.Feature) ||\n			!reflect.DeepEqual(item.ServerFeature, serverFeature) {\n			newSubscriptionEntries = append(newSubscriptionEntries, item)\n		}\n	}\n\n	if len(newSubscriptionEntries) == len(c.subscriptionEntries) {\n		return errors.New(\"could not find requested SubscriptionId to be removed\")\n	}\n",
     "		_ = itemAddress\n		if item.ClientFeature != clientFeature || item.ServerFeature != serverFeature {\n			newSubscriptionEntries = append(newSubscriptionEntries, item)\n		}\n	}\n"),
+ "r3-gate-judges-function-element": ("C03", "spine/device_local.go",
+    "		if operations, ok := localFeature.Operations()[*cmdData.Function]; !ok || !operations.Write() {",
+    "		gateFn := *cmdData.Function\n		if cmd.Function != nil && len(*cmd.Function) > 0 {\n			gateFn = *cmd.Function\n		}\n		if operations, ok := localFeature.Operations()[gateFn]; !ok || !operations.Write() {"),
+ "r3-full-notify-skips-removal-when-count-not-smaller": ("C03", "spine/nodemanagement_detaileddiscovery.go",
+    "	// seach for removed entites\n	for _, entity := range remoteDevice.Entities() {\n		address := entity.Address()\n		if !r.addressEntityListContainsAddressEntity(existingEntities, address.Entity) {",
+    "	// seach for removed entites\n	skipRemoved := len(data.EntityInformation) >= len(remoteDevice.Entities())\n	for _, entity := range remoteDevice.Entities() {\n		address := entity.Address()\n		if !skipRemoved && !r.addressEntityListContainsAddressEntity(existingEntities, address.Entity) {"),
+ "r3-sender-memoised-per-ski": ("C01", "spine/device_local.go",
+    "	sender := NewSender(writeI)\n	rDevice := NewDeviceRemote(r, ski, sender)",
+    "	memoKey := fmt.Sprintf(\"%p-%s\", r, ski)\n	sender, ok := senderMemo[memoKey]\n	if !ok {\n		sender = NewSender(writeI)\n		senderMemo[memoKey] = sender\n	}\n	rDevice := NewDeviceRemote(r, ski, sender)"),
  "c03-entity-removal-keeps-bindings": ("C03", "spine/nodemanagement_detaileddiscovery.go",
     "				bindingMgr.RemoveBindingsForEntity(removedEntity)", "				_ = bindingMgr"),
 }
@@ -88,7 +97,10 @@ for n in names:
     s = open(p).read()
     if s.count(old) != 1:
         print(n, "PATTERN count", s.count(old)); results[n] = "pattern-not-found"; continue
-    open(p, "w").write(s.replace(old, new))
+    s = s.replace(old, new)
+    if "senderMemo[" in new:
+        s += "\nvar senderMemo = map[string]api.SenderInterface{}\n"
+    open(p, "w").write(s)
     b = sh("go build ./... && go vet ./spine/ 2>&1 | head -5", cwd=WT, env=ENV)
     if b.returncode != 0:
         print(n, "BUILD FAILED", b.stdout[-500:]); results[n] = "build-failed"; continue
